@@ -46,6 +46,8 @@ type Cell struct {
 	Old    bool // existed before the current run started (package state)
 	Shared int  // write-monitor tag (0 = private)
 	Name   string
+	Abs    *AbsArr   // element of an abstract slice
+	AbsIdx *sym.Term
 }
 
 type Ptr struct{ C *Cell }
@@ -264,6 +266,9 @@ func (in *Interp) load(c *Cell) Value {
 	if c == nil {
 		in.goPanic("nil pointer dereference")
 	}
+	if c.Abs != nil {
+		return in.absLoad(c)
+	}
 	if c.Kids == nil {
 		if _, ok := under(c.T).(*types.Struct); ok {
 			return &Struct{}
@@ -293,6 +298,10 @@ func (in *Interp) load(c *Cell) Value {
 func (in *Interp) store(c *Cell, v Value) {
 	if c == nil {
 		in.goPanic("nil pointer dereference")
+	}
+	if c.Abs != nil {
+		in.absStore(c, v)
+		return
 	}
 	if c.Kids != nil {
 		switch x := v.(type) {
